@@ -13,10 +13,12 @@ pub struct Acc<'c> {
     pub ctx: &'c Ctx,
     h: std::collections::hash_map::DefaultHasher,
     pub n: u64,
+    /// names of equivalences between two doors to the same decoder that did not hold
+    pub mism: Vec<String>,
 }
 impl<'c> Acc<'c> {
     pub fn new(ctx: &'c Ctx) -> Acc<'c> {
-        Acc { ctx, h: std::collections::hash_map::DefaultHasher::new(), n: 0 }
+        Acc { ctx, h: std::collections::hash_map::DefaultHasher::new(), n: 0, mism: vec![] }
     }
     pub fn d<T: Debug>(&mut self, v: T) {
         format!("{:?}", v).hash(&mut self.h);
@@ -28,8 +30,15 @@ impl<'c> Acc<'c> {
         s.hash(&mut self.h);
         self.n += 1;
     }
-    pub fn finish(self) -> (i64, u64) {
-        ((self.h.finish() % (1u64 << 31)) as i64, self.n)
+    /// two doors to the same decoder (e.g. a deprecated alias) must give the same answer
+    pub fn same<T: PartialEq + Debug>(&mut self, name: &str, x: T, y: T) {
+        if x != y && !self.mism.iter().any(|m| m == name) {
+            self.mism.push(name.to_string());
+        }
+        self.d(x);
+    }
+    pub fn finish(self) -> (i64, u64, Vec<String>) {
+        ((self.h.finish() % (1u64 << 31)) as i64, self.n, self.mism)
     }
 }
 
@@ -418,12 +427,56 @@ fn sw_packet(a: &mut Acc, b: &[u8]) {
     }
 }
 
-pub fn sweep(ctx: &Ctx, which: &str, b: &[u8]) -> (i64, u64) {
+/// deprecated aliases and helper predicates
+#[allow(deprecated)]
+fn sw_aliases(a: &mut Acc, b: &[u8]) {
+    a.same("Ethernet2Header::read_from_slice", Ethernet2Header::read_from_slice(b).map(|(h, r)| (h, r.len())), Ethernet2Header::from_slice(b).map(|(h, r)| (h, r.len())));
+    a.same("SingleVlanHeader::read_from_slice", SingleVlanHeader::read_from_slice(b).map(|(h, r)| (h, r.len())), SingleVlanHeader::from_slice(b).map(|(h, r)| (h, r.len())));
+    a.same("Ipv4Header::read_from_slice", Ipv4Header::read_from_slice(b).map(|(h, r)| (h, r.len())), Ipv4Header::from_slice(b).map(|(h, r)| (h, r.len())));
+    a.same("Ipv6Header::read_from_slice", Ipv6Header::read_from_slice(b).map(|(h, r)| (h, r.len())), Ipv6Header::from_slice(b).map(|(h, r)| (h, r.len())));
+    a.same("TcpHeader::read_from_slice", TcpHeader::read_from_slice(b).map(|(h, r)| (h, r.len())), TcpHeader::from_slice(b).map(|(h, r)| (h, r.len())));
+    a.same("UdpHeader::read_from_slice", UdpHeader::read_from_slice(b).map(|(h, r)| (h, r.len())), UdpHeader::from_slice(b).map(|(h, r)| (h, r.len())));
+    a.same("IpHeaders::read_from_slice", format!("{:?}", IpHeaders::read_from_slice(b).map(|(h, n, r)| (h, n, r.len()))),
+           format!("{:?}", IpHeaders::from_slice(b).map(|(h, p)| (h, p.ip_number, p.payload.len()))));
+    if let Ok((h, _)) = IpHeaders::from_slice(b) {
+        a.same("IpHeaders::ipv4/ipv6", (h.ipv4().is_some(), h.ipv6().is_some()), (matches!(h, IpHeaders::Ipv4(..)), matches!(h, IpHeaders::Ipv6(..))));
+        let frag = match &h { IpHeaders::Ipv4(i, _) => i.is_fragmenting_payload(), IpHeaders::Ipv6(_, e) => e.is_fragmenting_payload() };
+        a.same("IpHeaders::is_fragmenting_payload", h.is_fragmenting_payload(), frag);
+        if let IpHeaders::Ipv6(i, e) = &h {
+            a.d(i.source_addr()); a.d(i.destination_addr()); a.d(e.is_empty());
+            if let Some(r) = &e.routing { a.d(r.header_len()); }
+        }
+        if let IpHeaders::Ipv4(_, e) = &h { a.d(e.is_empty()); }
+    }
+    if !b.is_empty() {
+        let n = IpNumber(b[0]);
+        // the extension headers of RFC 8200 / 4302 / 6275 / 7401 / 5533 and the two experimental numbers
+        a.same("IpNumber::is_ipv6_ext_header_value", n.is_ipv6_ext_header_value(), [0u8, 43, 44, 50, 51, 60, 135, 139, 140, 253, 254].contains(&b[0]));
+        a.same("Ipv6RawExtHeader::header_type_supported", Ipv6RawExtHeader::header_type_supported(n), [0u8, 43, 60, 135, 139, 140].contains(&b[0]));
+        a.same("Ipv6RawExtHeaderSlice::header_type_supported", Ipv6RawExtHeaderSlice::header_type_supported(n), Ipv6RawExtHeader::header_type_supported(n));
+        a.same("IpNumber::from", (IpNumber::from(b[0]), u8::from(n)), (n, b[0]));
+        if b.len() >= 2 {
+            let v = u16::from_be_bytes([b[0], b[1]]);
+            a.same("EtherType::from", (EtherType::from(v), u16::from(EtherType(v))), (EtherType(v), v));
+            a.same("ArpOperation::from", (ArpOperation::from(v), u16::from(ArpHardwareId::from(v))), (ArpOperation(v), v));
+        }
+        if b.len() >= 4 {
+            let g = igmp::GroupAddress::new([b[0], b[1], b[2], b[3]]);
+            a.same("GroupAddress", (g.is_zero(), <[u8; 4]>::from(g), std::net::Ipv4Addr::from(g), igmp::GroupAddress::from(std::net::Ipv4Addr::new(b[0], b[1], b[2], b[3]))),
+                   (b[..4] == [0, 0, 0, 0], [b[0], b[1], b[2], b[3]], std::net::Ipv4Addr::new(b[0], b[1], b[2], b[3]), g));
+        }
+    }
+    // a length limited reader reports what it was created with
+    let r = io::LimitedReader::new(std::io::Cursor::new(b), b.len() / 2, LenSource::Ipv4HeaderTotalLen, 7, err::Layer::Ipv4Packet);
+    a.same("LimitedReader getters", (r.max_len(), r.len_source(), r.layer(), r.layer_offset(), r.read_len()), (b.len() / 2, LenSource::Ipv4HeaderTotalLen, err::Layer::Ipv4Packet, 7, 0));
+}
+
+pub fn sweep(ctx: &Ctx, which: &str, b: &[u8]) -> (i64, u64, Vec<String>) {
     let mut a = Acc::new(ctx);
     match which {
         "link" => sw_link(&mut a, b),
         "net" => sw_net(&mut a, b),
-        "packet" => sw_packet(&mut a, b),
+        "packet" => { sw_packet(&mut a, b); sw_aliases(&mut a, b); }
         _ => sw_transport(&mut a, b),
     }
     a.finish()
